@@ -545,7 +545,7 @@ class Monitor:
 
     def __init__(self) -> None:
         self.fail: list[tuple[str, str, dict]] = []
-        self.maxuid: dict[int, int] = {}           # validity -> highest uid ever assigned/seen
+        self.maxuid: dict[tuple, int] = {}         # (token, validity) -> highest uid assigned/seen
         self.content: dict[tuple[int, int], int] = {}   # (validity, uid) -> mark
         self.uidnext: dict[int, int] = {}          # validity -> highest UIDNEXT reported
         self.sel: dict[int, dict | None] = {}      # connection -> current selection
@@ -554,8 +554,18 @@ class Monitor:
         self.unclaimed: dict[int, set[int]] = {}   # v -> uids that arrived with no rw selection
         self.pending_assign: list | None = None    # (v, [(uid, mark)]) of the previous op
         self.prev: tuple | None = None
-        self.names: dict[int, int] = {}            # name -> validity as far as known
+        # Two different mailboxes may legitimately carry the same UIDVALIDITY
+        # value (it is 16 time bits + 16 random bits), so everything is keyed
+        # by (mailbox token, UIDVALIDITY); tokens follow CREATE/RENAME answers.
+        self.tok: dict[int, int] = {0: 0}          # name -> mailbox token
+        self.ntok = 1
         self.n_checks = 0
+
+    def key(self, nm: int, v: int) -> tuple[int, int]:
+        if nm not in self.tok:
+            self.tok[nm] = self.ntok
+            self.ntok += 1
+        return (self.tok[nm], v)
 
     def bad(self, clause: str, what: str, **obs) -> None:
         if len(self.fail) < 5:
@@ -595,12 +605,17 @@ class Monitor:
             self.sel[s] = None
         elif k == 'close' and ob['k'] == 'ok':
             self.sel[s] = None
+        elif k == 'create' and ob['k'] == 'ok':
+            self.tok[op[2]] = self.ntok
+            self.ntok += 1
         elif k == 'rename' and ob['k'] == 'ok':
-            if op[2] in self.names:
-                self.names[op[3]] = self.names.pop(op[2])
+            if op[2] in self.tok:
+                self.tok[op[3]] = self.tok.pop(op[2])
+            if op[2] == 0:
+                self.tok[0] = self.ntok
+                self.ntok += 1
         elif k == 'append' and ob['k'] == 'append':
-            v = ob['v']
-            self.names[op[2]] = v
+            v = self.key(op[2], ob['v'])
             uids = expand_set(ob['uids'])
             marks = [m for m, _d, _r in op[3]]
             if len(uids) != len(marks):
@@ -610,7 +625,7 @@ class Monitor:
             self.pending_assign = (v, list(zip(uids, marks)))
         elif k in ('copy', 'move') and ob['k'] == 'copy' and ob['r'] is not None:
             v, a, b = ob['r']
-            self.names[op[3]] = v
+            v = self.key(op[3], v)
             src, dst = expand_set(a), expand_set(b)
             if len(src) != len(dst):
                 self.bad('copyuid_shape', f'op {t}: COPYUID lists {len(src)} sources and '
@@ -622,8 +637,7 @@ class Monitor:
             if ob['k'] != 'select':
                 self.sel[s] = None
                 return
-            v = ob['v']
-            self.names[op[2]] = v
+            v = self.key(op[2], ob['v'])
             self.ninst += 1
             self.sel[s] = {'v': v, 'ro': ob['ro'], 'inst': self.ninst,
                            'announced': ob['recent'], 'uidnext': ob['uidnext'],
@@ -632,8 +646,7 @@ class Monitor:
             if not ob['ro']:
                 self.sel[s]['claim'] = self.unclaimed.pop(v, set())
         elif k == 'status' and ob['k'] == 'status':
-            self.names[op[2]] = ob['v']
-            self._uidnext(ob['v'], ob['uidnext'], t)
+            self._uidnext(self.key(op[2], ob['v']), ob['uidnext'], t)
         elif k == 'fetch' and ob['k'] == 'fetch' and cur:
             self._dump(t, s, cur, ob, pend, prev)
         if cur and k != 'select':
